@@ -380,6 +380,15 @@ func (e *Engine) Explore(h *HarnessRun) {
 			if status == StFault {
 				stop = true
 			}
+			if h.terminationChecked && len(res.Findings) > 0 {
+				// a non-terminating loop with a choice per iteration has
+				// unboundedly many paths; one counterexample is enough
+				for _, f := range res.Findings {
+					if f.Kind == "nontermination" {
+						stop = true
+					}
+				}
+			}
 			if !stop && time.Since(t0) > time.Duration(h.maxWallS)*time.Second {
 				res.Problems = append(res.Problems, fmt.Sprintf("wall-clock budget %ds exhausted after %d paths (bound too large for this harness)", h.maxWallS, res.Paths))
 				stop = true
